@@ -244,6 +244,8 @@ func init() {
 var c11Units = []string{
 	`\"`, `\\`, `\/`, `\b`, `\f`, `\n`, `\r`, `\t`, "\\" + "u0041", "\\" + "u00e9", "\\" + "u0000", "\\" + "u001f", "\\" + "u2028", "\\" + "ud83d" + "\\" + "ude00", "\\" + "uD83D" + "\\" + "uDE00", "\\" + "uffff", "\\" + "ufffd", "\\" + "uFFFD", "\\" + "ufffe", "\\" + "ud7ff", "\\" + "ue000", "\\" + "ufeff",
 	"a", "é", "€", "😀", " ", "$", "`", ".", "[", "{", "(", "/", "'", "?", ":", "|", "&", "u", "\\" + "u0031", "0",
+	// what opens and closes a comment in other languages is text in a string
+	"/*", "*/", "//", "#",
 }
 
 func c11Nontrivial(text string) bool {
@@ -263,7 +265,7 @@ func c11Nontrivial(text string) bool {
 
 // TestC11_StringUnits: every string of <= 3 units over the unit alphabet.
 func TestC11_StringUnits(t *testing.T) {
-	rec := begin(t, "C11", "exhaustive: every JSON string of 0..3 units over a 36-unit alphabet (every two-character escape, \\uXXXX for BMP code points incl. controls, surrogate pairs in lower and upper case hex, raw BMP and astral characters, JSONata metacharacters), as a top-level text and inside an array and an object; oracle = encoding/json; evaluated on six inputs; plus the single-quoted respelling; non-trivial = contains an escape, a non-ASCII character or a container; distinct by text")
+	rec := begin(t, "C11", "exhaustive: every JSON string of 0..3 units over a 46-unit alphabet (comment markers of other languages, every two-character escape, \\uXXXX for BMP code points incl. controls, surrogate pairs in lower and upper case hex, raw BMP and astral characters, JSONata metacharacters), as a top-level text and inside an array and an object; oracle = encoding/json; evaluated on six inputs; plus the single-quoted respelling; non-trivial = contains an escape, a non-ASCII character or a container; distinct by text")
 	defer finish(t, rec)
 	shard, nshards := stats.Shard()
 	n := 0
@@ -304,7 +306,7 @@ func TestC11_StringUnits(t *testing.T) {
 	}
 	if !Thorough() {
 		// quick tier: triples over a 12-unit sub-alphabet
-		sub := []string{`\"`, `\\`, `\n`, `é`, `😀`, "a", "😀", "$", "'", "/", `\u0000`, "{"}
+		sub := []string{`\"`, `\\`, `\n`, `é`, `😀`, "a", "😀", "$", "'", "/", `\u0000`, "{", "/*", "*/"}
 		for _, a := range sub {
 			for _, b := range sub {
 				for _, c := range sub {
